@@ -181,6 +181,8 @@ type symCtx struct {
 	fi    *FuncInfo
 	subst map[*ssa.Parameter]*Expr
 	depth int
+	at    ssa.Instruction // the instruction whose value is being named (position of the read)
+	busy  map[*ssa.Alloc]bool
 }
 
 // Sym returns the canonical expression of v in the context of fi.Fn.
@@ -189,6 +191,9 @@ func (fi *FuncInfo) Sym(v ssa.Value) *Expr {
 		return e
 	}
 	c := &symCtx{fi: fi}
+	if in, ok := v.(ssa.Instruction); ok {
+		c.at = in
+	}
 	e := c.sym(v, 0)
 	fi.syms[v] = e
 	return e
@@ -246,6 +251,15 @@ func (c *symCtx) sym(v ssa.Value, guard int) *Expr {
 		if prm := fi.P.spilledParam(v); prm != nil {
 			return c.sym(prm, guard+1)
 		}
+		if src, ok := c.copyLocal(v); ok {
+			if c.busy == nil {
+				c.busy = map[*ssa.Alloc]bool{}
+			}
+			c.busy[v] = true
+			e := c.sym(src, guard+1)
+			delete(c.busy, v)
+			return e
+		}
 		name := v.Comment
 		if name == "" {
 			name = v.Name()
@@ -287,6 +301,16 @@ func (c *symCtx) sym(v ssa.Value, guard int) *Expr {
 	case *ssa.UnOp:
 		switch v.Op {
 		case token.MUL:
+			// a local cell assigned several times (err = f(); if err != nil ...):
+			// a read that directly follows an assignment in the same block is
+			// named like the assigned value
+			if al, ok := v.X.(*ssa.Alloc); ok {
+				if src := blockForward(al, v); src != nil {
+					if _, isLoad := src.(*ssa.UnOp); !isLoad {
+						return c.sym(src, guard+1)
+					}
+				}
+			}
 			return c.sym(v.X, guard+1)
 		case token.NOT:
 			return &Expr{Op: "not", Args: []*Expr{c.sym(v.X, guard+1)}, Val: v}
@@ -333,12 +357,19 @@ func (c *symCtx) sym(v ssa.Value, guard int) *Expr {
 		if guard > 8 {
 			return &Expr{Op: "opaque", Name: "phi:" + v.Name(), Val: v}
 		}
-		for _, x := range v.Edges {
+		live := fi.P.livePhiEdges(v, c.at)
+		for i, x := range v.Edges {
+			if live != nil && !live[i] {
+				continue // the reader is not reachable on a path that merged this value (thread.go)
+			}
 			if x == ssa.Value(v) {
 				e.Args = append(e.Args, leaf("self", v))
 				continue
 			}
 			e.Args = append(e.Args, c.sym(x, guard+8))
+		}
+		if live != nil && len(e.Args) == 1 {
+			return e.Args[0]
 		}
 		return e
 	case *ssa.Call:
@@ -795,4 +826,141 @@ func LinNorm(e *Expr) (base string, den, off, add int64, ok bool) {
 		return e.String(), 1, 0, 0, true
 	}
 	return e.String(), 1, 0, 0, true
+}
+
+// copyLocal recognises a local variable that is nothing but a name for a
+// value computed once: the Alloc receives exactly one whole-value store, no
+// field of it is written, its address does not escape into a closure that
+// writes it, the store dominates the read being named, and — when the stored
+// value is itself read from memory (`latest := l.configs.Latest`) — nothing on
+// any path between the copy and the read may write that memory. Such a local
+// is named like the value it holds, so that introducing or removing it does
+// not change canonical forms.
+func (c *symCtx) copyLocal(a *ssa.Alloc) (ssa.Value, bool) {
+	if c.busy[a] || a.Heap && false {
+		return nil, false
+	}
+	name := a.Comment
+	if name == "" || strings.HasPrefix(name, "complit") || name == "new" || strings.HasPrefix(name, "varargs") || strings.HasPrefix(name, "slicelit") {
+		return nil, false
+	}
+	refs := a.Referrers()
+	if refs == nil {
+		return nil, false
+	}
+	var st *ssa.Store
+	for _, r := range *refs {
+		switch u := r.(type) {
+		case *ssa.Store:
+			if u.Addr == ssa.Value(a) {
+				if st != nil {
+					return nil, false // assigned more than once
+				}
+				st = u
+			} else {
+				return nil, false // address stored somewhere
+			}
+		case *ssa.FieldAddr, *ssa.IndexAddr:
+			for _, rr := range *r.(ssa.Value).Referrers() {
+				if s2, ok := rr.(*ssa.Store); ok && s2.Addr == r.(ssa.Value) {
+					return nil, false // a field / element is written
+				}
+				if _, ok := rr.(*ssa.MakeClosure); ok {
+					return nil, false
+				}
+			}
+		case *ssa.MakeClosure:
+			// captured by reference: usable only if the closure never writes it
+			fn, _ := u.Fn.(*ssa.Function)
+			if fn == nil {
+				return nil, false
+			}
+			for i, b := range u.Bindings {
+				if b != ssa.Value(a) || i >= len(fn.FreeVars) {
+					continue
+				}
+				for _, fr := range *fn.FreeVars[i].Referrers() {
+					if s2, ok := fr.(*ssa.Store); ok && s2.Addr == ssa.Value(fn.FreeVars[i]) {
+						return nil, false
+					}
+					if _, ok := fr.(*ssa.FieldAddr); ok {
+						return nil, false
+					}
+				}
+			}
+		case *ssa.UnOp, *ssa.DebugRef:
+		case ssa.CallInstruction:
+			// passed by address to a call (method with pointer receiver etc.)
+			return nil, false
+		default:
+			return nil, false
+		}
+	}
+	if st == nil {
+		return nil, false
+	}
+	switch st.Val.(type) {
+	case *ssa.MakeChan, *ssa.MakeMap, *ssa.MakeSlice, *ssa.MakeClosure:
+		// an object created here: the variable is its name
+		return nil, false
+	}
+	at := c.at
+	if at != nil && at.Parent() == a.Parent() {
+		if !Dominates(st, at) {
+			return nil, false
+		}
+	} else {
+		at = nil
+	}
+	// stored value read from memory? then it must still be current at the read
+	if ld, ok := st.Val.(*ssa.UnOp); ok && ld.Op == token.MUL {
+		if _, isAlloc := ld.X.(*ssa.Alloc); !isAlloc {
+			src := (&symCtx{fi: c.fi}).sym(ld, 0)
+			if at == nil {
+				return nil, false
+			}
+			if bad := c.fi.writeOnPaths(st.Block(), instrIndex(st)+1, at, nil, []*Expr{src}); bad != "" {
+				return nil, false
+			}
+		}
+	}
+	return st.Val, true
+}
+
+// blockForward: the value last stored into the local cell al before the load
+// ld in ld's block, provided nothing in between can write the cell (a store, a
+// rundefers, or a call of a closure that captured it).
+func blockForward(al *ssa.Alloc, ld *ssa.UnOp) ssa.Value {
+	b := ld.Block()
+	if b == nil {
+		return nil
+	}
+	var last ssa.Value
+	for _, in := range b.Instrs {
+		if in == ssa.Instruction(ld) {
+			return last
+		}
+		switch x := in.(type) {
+		case *ssa.Store:
+			if x.Addr == ssa.Value(al) {
+				last = x.Val
+			}
+		case *ssa.RunDefers:
+			last = nil
+		case ssa.CallInstruction:
+			if mc, ok := x.Common().Value.(*ssa.MakeClosure); ok {
+				for _, bnd := range mc.Bindings {
+					if bnd == ssa.Value(al) {
+						last = nil
+					}
+				}
+			}
+			for _, a := range x.Common().Args {
+				if a == ssa.Value(al) {
+					last = nil // address handed to the callee
+				}
+			}
+		}
+	}
+	return nil
 }
